@@ -560,6 +560,16 @@ def enclosing_fn(node):
     return None
 
 
+def order_key(node, end=False):
+    """position of a node for before/after comparisons inside one function: the sequence number given by the inliner
+    when the function is a merged one, else the line number"""
+    if end:
+        v = getattr(node, "_seq_end", None)
+        return v if v is not None else getattr(node, "end_lineno", node.lineno)
+    v = getattr(node, "_seq", None)
+    return v if v is not None else node.lineno
+
+
 def enclosing_stmt(node):
     while node is not None and not isinstance(node, ast.stmt):
         node = getattr(node, "_parent", None)
